@@ -286,7 +286,8 @@ Inductive cls :=
 | CFloat (tok : string)       (* the token; its value is [float_value tok] *)
 | CBool (b : bool)
 | CNone
-| CStr (s : string)           (* literal_eval raises ValueError/SyntaxError: get_value returns the string *)
+| CStr (s : string)           (* literal_eval raises (ValueError, SyntaxError; also TypeError, MemoryError,
+                                 RecursionError since edaa6d4): get_value returns the string *)
 | COtherLit                   (* a literal of another type (imaginary number, Ellipsis) *)
 | CUnmodelled.                (* outside the modelled fragment *)
 
@@ -521,6 +522,12 @@ Fixpoint update_all (c : cfg) (ds : list (string * list (string * value))) : res
   | [] => Ok c
   | (sn, d) :: t => rbind (update_params c sn d) (fun c' => update_all c' t)
   end.
+
+(* update_params(sections_dict, params): the sections-dict calling convention.  Since 25a2190 it runs, for every
+   section in order, "add the section if missing, set(sec, name, str(value))" -- the same loop as repeated
+   single-section calls -- starting from read_params(params, fill_defaults) (the empty parser when params is None) *)
+Definition update_params_sections (base : cfg) (ds : list (string * list (string * value))) : result cfg :=
+  update_all base ds.
 
 (* ConfigParser.write *)
 Definition render_section (name : string) (s : section) : string :=
